@@ -237,9 +237,36 @@ func (P *Prog) deepViews(fn *ssa.Function, keep func(*ssa.Function) bool) []*Pat
 		}
 		for _, alt := range alts {
 			q := *p
-			q.conds = alt
+			q.conds = P.decomposeGates(alt)
 			if q.feasible() {
 				out = append(out, &q)
+			}
+		}
+	}
+	return out
+}
+
+// decomposeGates: conditions that are boolean combinations (a && b, a || b
+// arriving as gate terms, e.g. after a boolean argument was substituted into
+// a helper's condition) are followed by the conditions they determine.
+func (P *Prog) decomposeGates(conds []Fact) []Fact {
+	out := make([]Fact, 0, len(conds))
+	seen := map[string]bool{}
+	for _, c := range conds {
+		if !seen[c.String()] {
+			seen[c.String()] = true
+			out = append(out, c)
+		}
+		if c.Pred.Op != "gate" {
+			continue
+		}
+		tmp := factSet{}
+		P.addEdgeFacts(tmp, c.Pred, c.Val, nil)
+		for _, k := range tmp.sorted() {
+			f := tmp[k]
+			if !seen[f.String()] {
+				seen[f.String()] = true
+				out = append(out, f)
 			}
 		}
 	}
@@ -721,6 +748,11 @@ func (P *Prog) expandOneF(c Fact, depth int, keepF func(*ssa.Function) bool) [][
 				continue
 			}
 			if deleg || k == exitMixed {
+				// with the call's arguments in place the returned error may be
+				// decided after all (an error value handed in by the caller)
+				if k2, _ := P.classifyErr(rs[idx].subst(m), factSet{}); k2 == exitFailure {
+					continue
+				}
 				set = append(set, normFact(&Term{Op: "binop", S: "==", Args: []*Term{rs[idx].subst(m), tNil()}}, true))
 			}
 		}
